@@ -12,6 +12,10 @@ def step (line : String) : String :=
     | "forcing" :: rest => Forcing.run rest
     | "units" :: rest => Units.run rest
     | "comb" :: rest => Comb.run rest
+    | "interp" :: rest => Interp.run rest
+    | "regrid" :: rest => Regrid.run rest
+    | "tree" :: rest => Tree.run rest
+    | "sh9" :: rest => SHEquiv.run rest
     | _ => none
   r.getD "bad-op"
 
